@@ -21,6 +21,7 @@ def check(chk, thorough=False):
     chk.run('C02.c', 'sibling', 'encoder and decoder of every field / wrapper / packet kind are defined together and agree (order, frames, scheme tables)', lambda ob: c02c(tree, ob), floor=15)
     chk.run('C02.e', 'R-TRUTH', 'conversions preserve values: no truthiness test on a converted value, decoded flag/enum integers wrapped unchanged, plain IntFlag enums, unnormalised EID parts, exact time arithmetic', lambda ob: c02e(tree, ob), floor=20)
     chk.run('C02.f', 'sibling', 'checking a CRC leaves the block as it was: update_crc / check_crc agree and the received value is restored (= C08.c)', lambda ob: __import__('sa.props.c08', fromlist=['c08c']).c08c(tree, ob), floor=8)
+    chk.run('C02.g', 'R-SCHEMA', 'every CBOR structure is built as one packet (no expansion over array content), and an arity test in the bundle decoder admits every legal block size (8 to 11, 5 or 6)', lambda ob: c02g(tree, ob), floor=2)
     chk.run('C02.d', 'R-PAIR', 'encoded block data wins and is regenerated from the parsed payload only when absent; builders ensure it; admin records are reflected in flag, type and data and re-attached only under the admin flag', lambda ob: c02d(tree, ob), floor=7)
 
 
@@ -568,3 +569,51 @@ def c02d(tree, ob):
         ob.violate(BUNDLE, fp.qual, src(a), 'payload data is parsed as an administrative record without the admin flag / outside the payload block', a)
     else:
         ob.site(BUNDLE, a, 'AdminRecord re-attached only under the admin flag, on the payload block')
+
+
+def c02g(tree, ob):
+    ''' two things the round-trip of every structure relies on and that no field rule sees:
+    * scapy expands a packet whose field holds a list into one packet per member when it is built through iteration
+      (Packet.__iter__): the base class of every CBOR structure switches that off (yield self / length 1).  Moved down to the
+      array class, an item structure with array content ([9, [1, 2, 3]]) re-encodes as its first expansion ([9, 1]);
+    * an arity test in the bundle decoder admits every legal size: the primary block has 8 to 11 items (11 = fragment with CRC),
+      a canonical block 5 or 6. '''
+    cls = tree.klass(CPKT, 'AbstractCborStruct')
+    meths = {m.name: m for m in cls.body if isinstance(m, ast.FunctionDef)}
+    it = meths.get('__iter__')
+    ln = meths.get('__iterlen__')
+    ok_it = it is not None and [src(n.value) for n in ast.walk(it) if isinstance(n, ast.Yield) and n.value is not None] == ['self'] and not any(isinstance(n, (ast.For, ast.While, ast.YieldFrom)) for n in ast.walk(it))
+    ok_ln = ln is not None and [src(r.value) for r in ast.walk(ln) if isinstance(r, ast.Return) and r.value is not None] == ['1']
+    if ok_it and ok_ln:
+        ob.site(CPKT, it, 'every CBOR structure is one packet (no expansion over list-valued fields)')
+    else:
+        ob.violate(CPKT, 'AbstractCborStruct', '__iter__ / __iterlen__ (no iteration)', 'the base class of the CBOR structures does not switch off the expansion of list-valued fields: a structure that is '
+                   'not an array packet but holds array content is built as its first expansion, [9, [1, 2, 3]] re-encodes as [9, 1]', cls)
+    # arity tests against constants in the bundle decoder
+    LEGAL = ({8, 9, 10, 11}, {5, 6})
+    n = 0
+    for qual in ('Bundle.dissect', 'Bundle.do_dissect', 'Bundle.post_dissect', 'PrimaryBlock.do_dissect', 'CanonicalBlock.do_dissect'):
+        rel = BUNDLE if qual.startswith('Bundle.') else BLOCKS
+        if not tree.has_func(rel, qual):
+            continue
+        func = tree.func(rel, qual)
+        for cmp_ in [x for x in walk_local(func) if isinstance(x, ast.Compare) and len(x.ops) == 1 and isinstance(x.ops[0], (ast.In, ast.NotIn))]:
+            if not (isinstance(cmp_.left, ast.Call) and call_name(cmp_.left) == 'len'):
+                continue
+            c = cmp_.comparators[0]
+            allowed = None
+            if isinstance(c, (ast.Tuple, ast.List, ast.Set)) and all(isinstance(e, ast.Constant) and isinstance(e.value, int) for e in c.elts):
+                allowed = {e.value for e in c.elts}
+            elif isinstance(c, ast.Call) and call_name(c) == 'range' and all(isinstance(a, ast.Constant) and isinstance(a.value, int) for a in c.args) and 1 <= len(c.args) <= 3:
+                allowed = set(range(*[a.value for a in c.args]))
+            if allowed is None:
+                continue
+            n += 1
+            for legal in LEGAL:
+                if allowed & legal and not legal <= allowed:
+                    ob.violate(rel, qual, src(cmp_), 'the arity test admits {} but not {}: a well-formed block of that size (11 = a fragment that also carries a CRC) is refused'.format(sorted(allowed & legal), sorted(legal - allowed)), cmp_, sure=True)
+                    break
+            else:
+                ob.site(rel, cmp_, 'arity test admits every legal size')
+    if not n:
+        ob.site(BUNDLE, tree.klass(BUNDLE, 'Bundle'), 'the bundle decoder makes no arity test against constants (field decoding decides)')
